@@ -1004,6 +1004,21 @@ func (comp) Extra(prop string, tier string, seed int64, scratch string) *core.Ex
 			{code: opPut, key: kb, val: []byte{2}}, {code: opRemove, key: ka}, {code: opTick}}}
 		jobs = append(jobs, &job{i: len(jobs), sub: int64(7000 + kind), w: w})
 	}
+	// the exposure bound under a TRICKLE of writes (spaced closer than BatchDelaySeconds, far fewer than MaxBatchSize): runs beside the workloads
+	trickleDone := make(chan []core.Fail, 2)
+	for kind := 0; kind < 2; kind++ {
+		go func(kind int) { trickleDone <- trickleExposure(kind, fmt.Sprintf("%s/trickle%d", scratch, kind)) }(kind)
+	}
+	defer func() {
+		for kind := 0; kind < 2; kind++ {
+			for _, f := range <-trickleDone {
+				out.Fails = append(out.Fails, f)
+				out.Replays = append(out.Replays, "harness extra -component crash -prop C10   # trickle exposure: 9 Puts 300 ms apart, BatchDelaySeconds=1, MaxBatchSize=1000")
+			}
+			out.Counts["trickle-exposure-runs"]++
+			out.Evaluations += 9
+		}
+	}()
 	workers := runtime.NumCPU()
 	runAll := func(f func(*job)) {
 		var wg sync.WaitGroup
@@ -1089,4 +1104,65 @@ func (comp) Extra(prop string, tier string, seed int64, scratch string) *core.Ex
 		}
 	}
 	return out
+}
+
+// trickleExposure: one client writes 9 keys 300 ms apart through a persister with BatchDelaySeconds=1 and MaxBatchSize=1000 (the size
+// trigger never fires), then stays quiet for 1.6 s. Every acknowledged write must reach a journal fsync at most BatchDelaySeconds
+// (+ 1 s of scheduling slack) after its acknowledgement: the timer period runs from the previous firing, not from the last write.
+func trickleExposure(kind int, dir string) (fails []core.Fail) {
+	defer func() {
+		if r := recover(); r != nil {
+			fails = append(fails, core.Fail{Property: "C10", Step: -1, Msg: fmt.Sprintf("trickle exposure run panicked: %v", r)})
+		}
+	}()
+	leveldb.VerifSetOpenHook(openHook)
+	rs := newRecStorage()
+	path := dir + "/live"
+	registry.Store(path, rs)
+	defer registry.Delete(path)
+	defer os.RemoveAll(dir)
+	p, err := openPersister(kind, path, 1, 1000)
+	if err != nil {
+		return []core.Fail{{Property: "C10", Step: -1, Msg: "trickle exposure: cannot open the persister over the recording storage: " + err.Error()}}
+	}
+	const n = 9
+	acks := make([]time.Time, 0, n)
+	for i := 0; i < n; i++ {
+		rs.setOp(i)
+		if err := p.Put([]byte(fmt.Sprintf("trickle-%d", i)), []byte{byte(i)}); err != nil {
+			return []core.Fail{{Property: "C10", Step: i, Msg: "trickle exposure: Put failed: " + err.Error()}}
+		}
+		acks = append(acks, time.Now())
+		time.Sleep(300 * time.Millisecond)
+	}
+	time.Sleep(1600 * time.Millisecond)
+	end := time.Now()
+	rs.mu.Lock()
+	events := append([]event(nil), rs.events...)
+	rs.mu.Unlock()
+	_ = p.Close()
+	name := []string{"leveldb.DB", "leveldb.SerialDB"}[kind]
+	for i, a := range acks {
+		var first time.Time
+		found := false
+		for _, e := range events {
+			if e.kind == evSync && isJournal(e) && e.at.After(a) {
+				first, found = e.at, true
+				break
+			}
+		}
+		age := end.Sub(a)
+		if found {
+			age = first.Sub(a)
+		}
+		if age > 2*time.Second {
+			what := fmt.Sprintf("was first followed by a journal fsync %v after its acknowledgement", age.Round(time.Millisecond))
+			if !found {
+				what = fmt.Sprintf("was followed by no journal fsync at all in the %v until the end of the run", age.Round(time.Millisecond))
+			}
+			fails = append(fails, core.Fail{Property: "C10", Step: i, Msg: fmt.Sprintf("trickle exposure (%s, BatchDelaySeconds=1, MaxBatchSize=1000, one Put every 300 ms): write #%d %s; a crash in between loses a write older than BatchDelaySeconds", name, i, what)})
+			break
+		}
+	}
+	return fails
 }
